@@ -32,7 +32,7 @@ var nsURI = map[string]string{
 	"Iptc4xmpCore": "http://iptc.org/std/Iptc4xmpCore/1.0/xmlns/", "xmpRights": "http://ns.adobe.com/xap/1.0/rights/",
 }
 
-const xmlSafe = "ABCDEFGHIJKLMNOPQRSTUVWXYZabcdefghijklmnopqrstuvwxyz0123456789-_.,:;/()[]#+*!?@%$=~^|{}"
+const xmlSafe = "ABCDEFGHIJKLMNOPQRSTUVWXYZabcdefghijklmnopqrstuvwxyz0123456789-_.,:;/()[]#+*!?@%$=~^|{}>>"
 
 // XText draws a value of exactly n bytes without XML-special characters or outer blanks.
 func XText(r *core.Rng, n int) string {
@@ -140,7 +140,11 @@ func randUUIDText(r *core.Rng) (string, [16]byte) {
 	if r.Bool() {
 		body = hash
 	}
-	switch r.Intn(4) {
+	switch r.Intn(6) {
+	case 4:
+		return "urn:uuid:" + body, u
+	case 5:
+		return "adobe:docid:photoshop:" + body, u
 	case 0:
 		return "xmp.did:" + body, u
 	case 1:
@@ -357,6 +361,10 @@ type XMPStyle struct {
 	// ManyArrays puts that many unknown one-item arrays in front of the other elements (array
 	// handling must not wear out with the number of arrays seen).
 	ManyArrays int
+	// EqWS: white space around the '=' of attributes (XML: Eq ::= S? '=' S?).
+	EqWS [2]string
+	// ItemLang: xml:lang qualifiers also on the items of Seq / Bag arrays (dc:subject, dc:creator).
+	ItemLang bool
 }
 
 // RandXMPStyle draws a style. exotic enables TAB / CR LF separators.
@@ -412,6 +420,10 @@ func RandXMPStyle(r *core.Rng, exotic bool) XMPStyle {
 	}
 	st.Unknown = r.Pick(0, 0, 1, 3, 8)
 	st.SplitDesc = r.Chance(1, 4)
+	if r.Chance(1, 5) {
+		st.EqWS = [2]string{r.PickStr("", " ", "  ", "\n"), r.PickStr("", " ", "\t", " \n ")}
+	}
+	st.ItemLang = r.Chance(1, 4)
 	st.SelfClose = r.Chance(1, 3)
 	st.LangAttr = r.Chance(3, 4)
 	return st
@@ -506,7 +518,7 @@ func (rec *XMPRec) Serialise(r *core.Rng, st XMPStyle, forceForm int) []byte {
 				if strings.Contains(p.Values[0], q) {
 					aq = map[string]string{"'": "\"", "\"": "'"}[q]
 				}
-				attrs = append(attrs, fmt.Sprintf("%s:%s=%s%s%s", p.NS, p.Name, aq, p.Values[0], aq))
+				attrs = append(attrs, fmt.Sprintf("%s:%s%s=%s%s%s%s", p.NS, p.Name, st.EqWS[0], st.EqWS[1], aq, p.Values[0], aq))
 				continue
 			}
 			switch p.Kind {
@@ -522,7 +534,7 @@ func (rec *XMPRec) Serialise(r *core.Rng, st XMPStyle, forceForm int) []byte {
 				}
 				fmt.Fprintf(&b, "<%s:%s>%s%s<rdf:%s>%s", p.NS, p.Name, st.NL, st.Indent, cont, st.NL)
 				for i, v := range p.Values {
-					if p.Kind == "alt" && st.LangAttr {
+					if (p.Kind == "alt" && st.LangAttr) || (p.Kind != "alt" && st.ItemLang && i%2 == 0) {
 						lang := "x-default"
 						if i > 0 {
 							lang = []string{"en-US", "de-DE", "fr", "ja-JP"}[i%4]
